@@ -325,7 +325,9 @@ func (s *Server) Session(strm signaling.SRPCSignaling_SessionStream) error {
 		currUserped := currLocalPeer != ourPeerTkr
 		var currOpen *uint64
 		if currRemotePeer != nil {
-			currOpen = &sess.seqno
+			// copy the epoch: it is compared by value and sent after unlocking
+			currSeqno := sess.seqno
+			currOpen = &currSeqno
 		}
 		waitCh = sess.getWaitCh()
 
@@ -353,7 +355,7 @@ func (s *Server) Session(strm signaling.SRPCSignaling_SessionStream) error {
 		}
 
 		// Send the opened or closed message if opened or closed.
-		if prevSentOpenToLocal != currOpen {
+		if (prevSentOpenToLocal == nil) != (currOpen == nil) || (currOpen != nil && *prevSentOpenToLocal != *currOpen) {
 			var err error
 			if currOpen != nil {
 				err = strm.Send(&signaling.SessionResponse{
